@@ -268,6 +268,123 @@ Theorem c07_loops_isolated :
 Proof. exact loops_isolated_proof. Qed.
 Print Assumptions c07_loops_isolated.
 
+(* ---------------------------------------------------------------------- *)
+(* Overlapping requests.  run() is not atomic for its caller: while a request is
+   inside executor.express() / assessor.express(), another thread - or the agent
+   itself, re-entrantly - may use the same loop object.  An overlapping history
+   [xop] puts any operations ([XAtomic o], further [XBegin]s, [XEnd]s of other
+   requests) between the two halves [XBegin id q] ... [XEnd id now] of any number
+   of requests in flight; [xtrace H K cf bc ops] has one event per operation
+   ([EvReturned]: the begin came back at once - rejected by the breaker or
+   served from the cache; [EvInFlight]; [EvCompleted id q now rp]: the request
+   begun as [XBegin id q] returned [rp] at clock [now]); [xreply e] is the
+   (request, reply) pair of an event, [xdone_at e] the clock value at which
+   that reply was produced. *)
+
+(* The histories of all theorems above are the overlapping histories without
+   overlap ... *)
+Theorem c07_overlap_atomic_is_sequential :
+  forall (H K : str -> str) cf bc ops,
+    xtrace H K cf bc (map XAtomic ops) = map EvAtomic (betrace H K cf bc ops).
+Proof. exact overlap_atomic_is_sequential_proof. Qed.
+Print Assumptions c07_overlap_atomic_is_sequential.
+
+(* ... and a request carried out in one go is its two halves back to back at one
+   clock value: same reply, same state of the loop object afterwards. *)
+Theorem c07_overlap_begin_end_is_request :
+  forall (H K : str -> str) cf bc s pend id q s' rp adm,
+    bstep H K cf bc s q = (s', rp, adm) ->
+    (r_exec_called rp = false /\
+     xstep H K cf bc (s, pend) (XBegin id q) = ((s', pend), EvReturned id q rp adm)) \/
+    (r_exec_called rp = true /\ adm = true /\
+     exists s1 n,
+       xstep H K cf bc (s, pend) (XBegin id q) = ((s1, (id, q) :: pend), EvInFlight id q n) /\
+       xstep H K cf bc (s1, (id, q) :: pend) (XEnd id (q_time q)) =
+         ((s', pend), EvCompleted id q (q_time q) rp)).
+Proof. exact begin_end_is_request_proof. Qed.
+Print Assumptions c07_overlap_begin_end_is_request.
+
+(* A request is judged on ITS OWN prompt and ITS OWN agents' verdicts, whatever
+   else happens on the loop object while it is in flight: in every overlapping
+   history the reply with which an in-flight request returns is the gate's
+   outcome (decision, token with H of THIS prompt and the assessor's name) for
+   the request given at the begin with that id earlier in the history; it is not
+   marked cached and its agents were handed exactly its prompt. *)
+Theorem c07_overlap_completed_is_own_gate :
+  forall (H K : str -> str) cf bc ops i id q now rp,
+    nth_error (xtrace H K cf bc ops) i = Some (EvCompleted id q now rp) ->
+    nth_error ops i = Some (XEnd id now) /\ In (XBegin id q) (firstn i ops) /\
+    r_cached rp = false /\ r_core rp = outcome H cf q /\ r_exec_called rp = true /\
+    r_assess_called rp = negb (raised (q_exec q)) /\ r_shown rp = Some (q_prompt q).
+Proof. exact overlap_completed_is_own_gate_proof. Qed.
+Print Assumptions c07_overlap_completed_is_own_gate.
+
+(* First conjunct, for every reply of every overlapping history (in one go, at
+   a begin, at an end; cached or not; with or without a breaker): a reply that
+   is not blocked is the gate's outcome for a request of the history with the
+   same cache key - itself unless the reply is a cached one, otherwise one
+   whose own reply was produced EARLIER - whose agents' verdicts satisfied the
+   configured logic. *)
+Theorem c07_overlap_pass_only_if :
+  forall (H K : str -> str) cf bc ops i e q rp,
+    nth_error (xtrace H K cf bc ops) i = Some e -> xreply e = Some (q, rp) ->
+    c_blocked (r_core rp) = false ->
+    exists j ej qj rj,
+      (j <= i)%nat /\ nth_error (xtrace H K cf bc ops) j = Some ej /\ xreply ej = Some (qj, rj) /\
+      K (q_prompt qj) = K (q_prompt q) /\ r_cached rj = false /\ (r_cached rp = false -> j = i) /\
+      r_core rp = outcome H cf qj /\
+      spec_pass (cf_logic cf) (q_exec qj) (q_assess qj) = true.
+Proof. exact overlap_pass_only_if_proof. Qed.
+Print Assumptions c07_overlap_pass_only_if.
+
+(* Cached replies are identical in verdict to the original, for overlapping
+   histories: a reply marked cached has the core of the uncached reply of a
+   request for the SAME prompt (cache key injective on the history's prompts)
+   that had RETURNED before - a request still in flight has stored nothing -
+   and is served within the TTL counted from the moment that reply was produced
+   (its end, not its begin); no agent is asked. *)
+Theorem c07_overlap_cache_same_verdict :
+  forall (H K : str -> str) cf bc ops,
+    (forall a b, (In (XAtomic (OReq a)) ops \/ exists id, In (XBegin id a) ops) ->
+                 (In (XAtomic (OReq b)) ops \/ exists id, In (XBegin id b) ops) ->
+                 K (q_prompt a) = K (q_prompt b) -> q_prompt a = q_prompt b) ->
+    forall i e q rp,
+      nth_error (xtrace H K cf bc ops) i = Some e -> xreply e = Some (q, rp) -> r_cached rp = true ->
+      exists j ej qj rj tj,
+        (j < i)%nat /\ nth_error (xtrace H K cf bc ops) j = Some ej /\ xreply ej = Some (qj, rj) /\
+        xdone_at ej = Some tj /\ q_prompt qj = q_prompt q /\ r_cached rj = false /\
+        r_core rp = r_core rj /\ r_core rj = outcome H cf qj /\
+        q_time q - tj < cf_ttl cf /\ r_exec_called rp = false /\ r_assess_called rp = false.
+Proof. exact overlap_cache_same_verdict_proof. Qed.
+Print Assumptions c07_overlap_cache_same_verdict.
+
+(* Token conjunct, for overlapping histories: every token on every reply is
+   bound to the hash of exactly the prompt being answered - never to that of
+   another request in flight at the same time -, names the assessor, sits on a
+   not-blocked reply, and the assessor said PERMIT to this prompt. *)
+Theorem c07_overlap_token_bound :
+  forall (H K : str -> str) cf bc ops,
+    (forall a b, (In (XAtomic (OReq a)) ops \/ exists id, In (XBegin id a) ops) ->
+                 (In (XAtomic (OReq b)) ops \/ exists id, In (XBegin id b) ops) ->
+                 K (q_prompt a) = K (q_prompt b) -> q_prompt a = q_prompt b) ->
+    forall i e q rp t,
+      nth_error (xtrace H K cf bc ops) i = Some e -> xreply e = Some (q, rp) ->
+      c_token (r_core rp) = Some t ->
+      tk_hash t = H (q_prompt q) /\ tk_issuer t = cf_assessor cf /\ c_blocked (r_core rp) = false /\
+      exists j ej qj rj,
+        (j <= i)%nat /\ nth_error (xtrace H K cf bc ops) j = Some ej /\ xreply ej = Some (qj, rj) /\
+        q_prompt qj = q_prompt q /\ r_cached rj = false /\ q_assess qj = VPermit.
+Proof. exact overlap_token_bound_proof. Qed.
+Print Assumptions c07_overlap_token_bound.
+
+(* Two loop objects, overlapping requests on each: still no influence. *)
+Theorem c07_overlap_loops_isolated :
+  forall (H K : str -> str) cf0 cf1 bc0 bc1 tops b,
+    proj b (xsys_trace H K cf0 cf1 bc0 bc1 tops) =
+    xtrace H K (if b then cf1 else cf0) (if b then bc1 else bc0) (proj b tops).
+Proof. exact overlap_loops_isolated_proof. Qed.
+Print Assumptions c07_overlap_loops_isolated.
+
 (* Generated-data obligations: the table obtained on this run by calling the
    real _apply_gate_logic on every combination is the model's gate, and it
    mentions all 6 x 7 x 7 combinations of returned verdicts. *)
